@@ -343,7 +343,7 @@ func (cmd *mainCmd) Run(args []string) error {
 			cmd.printComments(sourcePath.Provided, comments)
 			_, err = cmd.Stdout.Write(bs)
 		default:
-			err = os.WriteFile(filename, bs, 0o644)
+			err = writeFileAtomic(filename, bs)
 		}
 		if err != nil {
 			log.Printf("%s: failed: %v", filename, err)
@@ -355,6 +355,44 @@ func (cmd *mainCmd) Run(args []string) error {
 
 	errors = append(errors, patchRunner.errors...)
 	return multierr.Combine(errors...)
+}
+
+// writeFileAtomic replaces the contents of filename with bs. The new contents are
+// written to a temporary file in the same directory which is then renamed
+// over filename, so that a failed or interrupted write (disk full, file size
+// limit, process killed) leaves the original file intact instead of a
+// truncated one.
+func writeFileAtomic(filename string, bs []byte) (err error) {
+	perm := os.FileMode(0o644)
+	if info, statErr := os.Stat(filename); statErr == nil {
+		perm = info.Mode().Perm()
+	}
+
+	// The name must not end in ".go": a leftover of a killed run should not
+	// be picked up as a Go file.
+	tmp, err := os.CreateTemp(filepath.Dir(filename), "."+filepath.Base(filename)+".gopatch-*")
+	if err != nil {
+		return fmt.Errorf("write %v: %w", filename, err)
+	}
+	defer func() {
+		if err != nil {
+			_ = os.Remove(tmp.Name())
+			err = fmt.Errorf("write %v: %w", filename, err)
+		}
+	}()
+
+	if _, err = tmp.Write(bs); err != nil {
+		_ = tmp.Close()
+		return err
+	}
+	if err = tmp.Chmod(perm); err != nil {
+		_ = tmp.Close()
+		return err
+	}
+	if err = tmp.Close(); err != nil {
+		return err
+	}
+	return os.Rename(tmp.Name(), filename)
 }
 
 func checkGeneratedCode(f *ast.File) bool {
